@@ -113,6 +113,11 @@ def rule(ctx, rep, prop, focus):
     fclo = facts.fns[clo]
     import c12 as _c12h
     _c12h.inherit_h7(ctx, rep, prop)   # the pipeline's output must reach the caller untouched
+    if prop not in ("C07", "C11"):     # (those two evaluate it themselves)
+        import c03 as _c03
+        rep.rule("S6", "inherits C03 S6 (re-evaluated here): validation only appends to a file's diagnostics (push / final sort); the per-file closure returns the entry's id and the stored vector - "
+                       "a diagnostic a rule of this property emitted is never removed, merged or replaced afterwards")
+        _c03.append_only_rule(ctx, rep, prop)
     if not focus or "resolve_types" in focus:
         captures_rule(facts, rep, prop, clo)   # shared state reaches a file through name resolution (and makes the output order-dependent)
     qn = qn_closures(facts, clo)
